@@ -2,6 +2,7 @@ import Litep2pVerif.Proofs.Conn.Loop
 import Litep2pVerif.Proofs.Conn.Permits
 import Litep2pVerif.Proofs.Conn.Established
 import Litep2pVerif.Proofs.Conn.Accept
+import Litep2pVerif.Proofs.Conn.Wait
 /-!
 # C07 — A terminated connection is reported closed to everyone exactly once
 
@@ -63,21 +64,72 @@ example :
     s1.exited = none ∧ s1.ps.log = [.proto 1 .closed] ∧
     s2.exited = some .err ∧ s2.ps.log = [.proto 1 .closed, .proto 0 .closed, .mgr] := by decide
 
-/-- **… and the same with the permits computed instead of assumed** (`Model/Conn/Permits.lean`, the model
-the real `TcpConnection::start` loop is driven against in the `tcploop` area). There the no-permit exit of
-`handle_yamux_substream` (`try_get_permit().ok_or(Error::ConnectionClosed)?`) is not an input flag but what
-happens when an inbound substream is accepted after the last strong sender is gone, and the idle exit is
-enabled only then. For every sequence of loop events, handle operations of the protocols (downgrade,
-upgrade, drop, open, force-close, shut down) and deliveries: nobody is told twice, and once `start()` has
-returned everybody alive has been told exactly once. -/
-theorem tcploop_exit_reports_closed_once (s0 : TLoop) (h0 : Fresh s0.loop.ps) (hc : s0.loop.cont = none)
+/-- **… and the same with the permits computed instead of assumed, from EVERY exit path, however long a protocol stays
+busy** (`Model/Conn/Permits.lean`, the model the real `TcpConnection::start` loop is driven against in the `tcploop`
+area; formerly `tcploop_exit_reports_closed_once`, extended in the f-round for seeded C07-f1). There the no-permit exit
+of `handle_yamux_substream` (`try_get_permit().ok_or(Error::ConnectionClosed)?`) is not an input flag but what happens
+when an inbound substream is accepted after the last strong sender is gone, and the idle exit is enabled only then.
+For every sequence `ls` of loop events, handle operations of the protocols (downgrade, upgrade, drop, open, force-close,
+shut down) and deliveries:
+
+1. nobody is told twice;
+2. once `start()` has returned everybody alive has been told exactly once;
+3. while a close report has begun — on WHICHEVER exit path: remote close / go-away (`yamuxErr`, `yamuxEof`),
+   `ForceClose` (`takeCmd`), all protocols gone (`idleExit`), the no-permit `?` exit (`accept`), a report to a protocol
+   that has shut down (`negOk`/`negFail` → `start()`'s error path) — and `start()` has not returned, the loop is
+   suspended in exactly that call (`CK .closed`), on a continuation that ends `start()`; every live protocol it is not
+   waiting for has its one report, the ones it waits for have none yet, and the manager has none (protocols first);
+4. and the wait is not bounded by anything: from such a state (in fact from every state in which the loop is suspended
+   in a report) NO sequence `ls'` of events of the connection, commands, handle operations or timers — everything
+   except a move of the other end of a channel (`TLabel.isChan`: the busy protocol / the manager taking a message,
+   a receiver going away) — changes the loop at all: it neither returns nor gives the report up, however long the
+   channel stays full. (A bound on the wait — e.g. a timeout around `report_connection_closed` in one of the handlers
+   — would be a transition out of this state that is not a channel move.) With 2: when the busy parties do catch up,
+   every running protocol and then the manager are told exactly once. -/
+theorem close_report_waits_for_busy_protocol (s0 : TLoop) (h0 : Fresh s0.loop.ps) (hc : s0.loop.cont = none)
     (hx : s0.loop.exited = none) (ls : List TLabel) :
     let s := (trun s0 ls).loop
     (∀ j, cnt s.ps j .closed ≤ 1) ∧ mgrCnt s.ps ≤ 1 ∧
     (s.exited.isSome →
       s.ps.closedRuns = 1 ∧ (∀ j, aliveAt s.ps j → cnt s.ps j .closed = 1) ∧
-      (s.ps.mgr.alive = true → mgrCnt s.ps = 1)) :=
-  (trun_pinv ls s0 (h0.pinv hc hx)).reports
+      (s.ps.mgr.alive = true → mgrCnt s.ps = 1)) ∧
+    (s.exited = none → s.ps.closedRuns = 1 →
+      (s.cont = some .closeThenExit ∨ s.cont = some .errorExitReport) ∧ CK .closed s.ps.call ∧
+      (∀ w e, s.ps.call = .protoSends .closed w e →
+        (∀ j, aliveAt s.ps j → j ∉ w → cnt s.ps j .closed = 1) ∧ (∀ j ∈ w, cnt s.ps j .closed = 0) ∧ mgrCnt s.ps = 0) ∧
+      (∀ e, s.ps.call = .mgrSend e → (∀ j, aliveAt s.ps j → cnt s.ps j .closed = 1) ∧ mgrCnt s.ps = 0)) ∧
+    (s.cont.isSome → ∀ ls', (∀ l ∈ ls', l.isChan = false) → (trun (trun s0 ls) ls').loop = s) := by
+  intro s
+  have hp : PInv s := trun_pinv ls s0 (h0.pinv hc hx)
+  refine ⟨hp.reports.1, hp.reports.2.1, hp.reports.2.2, fun hex hruns => hp.waiting hex hruns, fun hcont ls' hl => ?_⟩
+  apply trun_suspended ls' (trun s0 ls) _ hl
+  unfold TLoop.running
+  cases hcc : (trun s0 ls).loop.cont with
+  | none => rw [show s.cont = (trun s0 ls).loop.cont from rfl, hcc] at hcont; cases hcont
+  | some c => simp
+
+/-- Non-vacuity of 3 and 4, the C07-f1 shape: two protocols take the connection, protocol 0 is busy (its channel of
+capacity 1 is full of somebody else's message), protocol 1 force-closes. The loop is suspended in the close report,
+waiting for protocol 0, protocol 1 has been told, the manager has not. Then the remote closes, protocol 1 sends more
+commands, releases its handle, pending negotiations time out …: nothing changes. When protocol 0 finally takes the
+filler the report goes through: protocol 0, then the manager; `start()` returns `Ok`. -/
+example :
+    let s := trun (tinit [true, true] 1) [.recv 0, .recv 1, .fill 0, .forceClose 1, .takeCmd]
+    let s' := trun s [.yamuxEof, .yamuxErr, .localOpen 1, .takeCmd, .downgrade 1, .idleExit, .negFail 0, .accept]
+    let s'' := trun s' [.recv 0]
+    s.loop.exited = none ∧ s.loop.ps.closedRuns = 1 ∧ s.loop.cont = some .closeThenExit ∧
+    s.loop.ps.call = .protoSends .closed [0] false ∧ s.loop.ps.log = [.proto 1 .closed] ∧
+    s'.loop = s.loop ∧
+    s''.loop.exited = some .ok ∧ s''.loop.ps.log = [.proto 1 .closed, .proto 0 .closed, .mgr] := by decide
+
+/-- … and the same wait on the error path of `start()`: protocol 1 has shut down, a substream is negotiated for it
+while protocol 0 is busy. `run_event_loop` fails, `start()` makes up for the report and waits for protocol 0. -/
+example :
+    let s := trun (tinit [true, true] 1) [.recv 0, .recv 1, .accept, .fill 0, .dropRx 1, .negOk 0 1]
+    let s' := trun s [.yamuxEof, .idleExit, .negFail 0, .accept, .forceClose 0, .takeCmd]
+    let s'' := trun s' [.recv 0]
+    s.loop.exited = none ∧ s.loop.cont = some .errorExitReport ∧ s.loop.ps.call = .protoSends .closed [0] true ∧
+    s'.loop = s.loop ∧ s''.loop.exited = some .err ∧ s''.loop.ps.log = [.proto 0 .closed, .mgr] := by decide
 
 /-- Non-vacuity, the no-permit exit explicitly: two protocols (keep-alive yes / no) take the connection,
 one downgrades its handle and the other drops it; a remote substream arrives. No permit can be had: the
@@ -382,7 +434,7 @@ example :
 /-- **… and the connection stays usable for the live protocols** (permit-aware loop model
 `Model/Conn/Permits.lean`, the one the real `TcpConnection::start` is driven against). For every state of
 the loop satisfying the reporting invariant (`PInv`: every state reachable from a fresh connection, see
-`tcploop_exit_reports_closed_once`) in which the loop is at its `select!`:
+`close_report_waits_for_busy_protocol`) in which the loop is at its `select!`:
 1. a protocol `d` shutting down (receiver, handle, substreams dropped) leaves the loop running, every other
    protocol `p` alive, the invariant intact and every negotiation in progress in `pending_substreams`;
 2. when afterwards (or in any running state) a negotiation ends for a LIVE protocol `p` —
@@ -566,7 +618,7 @@ end Litep2pVerif.Props.C07
 open Litep2pVerif.Props.C07 in
 #print axioms exit_reports_closed_once
 open Litep2pVerif.Props.C07 in
-#print axioms tcploop_exit_reports_closed_once
+#print axioms close_report_waits_for_busy_protocol
 open Litep2pVerif.Props.C07 in
 #print axioms protocols_before_manager
 open Litep2pVerif.Props.C07 in
